@@ -37,3 +37,8 @@ package call
 //@ loop 1 invariant forall j int :: {methodMap[funcName][j]} 0 <= j && j < #i ==> HasLine(arrayResult, EL(funcName, Subst(methodMap[funcName][j], diMap)))
 //@ loop 1 assert IsPrefix(arrayResult@pre, arrayResult)
 //@ loop 1 assert HasLine(arrayResult, EL(funcName, Subst(methodMap[funcName][#i - 1], diMap)))
+
+// C07: generating a call graph twice in one process yields the same graph: the expansion budget is full on every run
+//@ func CallGraph.Analysis
+//@ modifies loopCount, rcall.loopCount, rcall.lastChild
+//@ assert before BuildCallChain#1 loopCount == 0
